@@ -24,6 +24,7 @@ const (
 	prefixSplitter  = '+'
 	keyPairSplitter = ','
 	keyNameSplitter = '='
+	keyEscape       = '\\'
 	nilString       = ""
 )
 
@@ -58,29 +59,33 @@ func keyForPrefixedStringMapsAsKey(buf []byte, prefix string, maps ...map[string
 	insertionSort(keys)
 
 	if prefix != nilString {
-		buf = append(buf, prefix...)
+		buf = appendKeyEscaped(buf, prefix)
 		buf = append(buf, prefixSplitter)
 	}
 
-	var lastKey string // last key written to the buffer
+	var (
+		lastKey  string // last key written to the buffer
+		wroteKey bool   // whether any key was written (the empty string is a valid key)
+	)
 	for _, k := range keys {
-		if len(lastKey) > 0 {
+		if wroteKey {
 			if k == lastKey {
 				// Already wrote this key.
 				continue
 			}
 			buf = append(buf, keyPairSplitter)
 		}
+		wroteKey = true
 		lastKey = k
 
-		buf = append(buf, k...)
+		buf = appendKeyEscaped(buf, k)
 		buf = append(buf, keyNameSplitter)
 
 		// Find and write the value for this key. Rightmost map takes
 		// precedence.
 		for j := len(maps) - 1; j >= 0; j-- {
 			if v, ok := maps[j][k]; ok {
-				buf = append(buf, v...)
+				buf = appendKeyEscaped(buf, v)
 				break
 			}
 		}
@@ -104,4 +109,21 @@ func insertionSort(keys []string) {
 			keys[j], keys[j-1] = keys[j-1], keys[j]
 		}
 	}
+}
+
+// appendKeyEscaped appends s, putting the escape character in front of every
+// byte the key format gives a meaning to, so that distinct (prefix, tags)
+// identities can never produce the same key. Strings without such bytes are
+// appended unchanged.
+func appendKeyEscaped(buf []byte, s string) []byte {
+	start := 0
+	for i := 0; i < len(s); i++ {
+		switch s[i] {
+		case prefixSplitter, keyPairSplitter, keyNameSplitter, keyEscape:
+			buf = append(buf, s[start:i]...)
+			buf = append(buf, keyEscape)
+			start = i
+		}
+	}
+	return append(buf, s[start:]...)
 }
